@@ -5,3 +5,15 @@ package cache
 // Contracts for the goverif VC generator (/verif). Comment-only file: it adds no code.
 
 //@ type internalCacheT guarded_by mutex: cache
+
+// ---- C30 (kernel): a read asks the in-memory layer, then the database, for the SAME namespace and key --
+//@ func Read [C30]
+//@   check none
+//@   at call read#1 assert arg0 == namespace && arg1 == key && arg2 == ptr
+//@   at call Read#1 assert arg0 == namespace && arg1 == key && arg2 == ptr && !ret("read#1")
+//@   ensures result == (ret("read#1") || (called("Read") && ret("Read#1")))
+//@ func Write [C30]
+//@   check none
+//@   at call write#1 assert arg0 == namespace && arg1 == key && arg2 == value && arg3 == ttl
+//@   at call Write#1 assert arg0 == namespace && arg1 == key && arg2 == value && arg3 == ttl
+//@   ensures called("write") && called("Write")
